@@ -432,6 +432,16 @@ def jobs(tier):
     for which in ("font", "otsvg"):
         for u in ("translate", "general"):
             js.append(Job(f"place[{which},{u}]", C01.job_place, which=which, user=u))
+    # clipbox_quantization -> clip-box edges (kernel of C05) and bitmap_resolution -> strike ppem (kernel of C14)
+    from harness import C05, C14
+
+    for upem, quant in ((1000, None), (1000, 1), (1024, 7), (2048, 50)):
+        js.append(Job(f"colr_ufo[PQ,upem={upem},q={quant}]", C05.job_colr_ufo, order="PQ", upem=upem, quant=quant))
+    js.append(Job("bounds[PaintTransform,square,step=20]", C05.job_bounds, template="PaintTransform", outline="square", factor=20))
+    for upem, F in ((1024, 1200), (1000, 1200), (2048, 2400)):
+        for h in ((64, 96, 106, 128) if tier == "quick" else (16, 33, 64, 77, 96, 106, 128, 136, 200, 255)):
+            for fmt in ("cbdt", "sbix"):
+                js.append(Job(f"metrics[{fmt},square,upem={upem},F={F},h={h}]", C14.job_metrics, upem=upem, F=F, h=h, mode="square", fmt=fmt))
     for c1 in BITMAP_COMBOS:
         for c2 in BITMAP_COMBOS:
             for shared in (True, False):
